@@ -14,16 +14,18 @@ CHECKS = {
     "C02": dict(
         text="fn: the default function plus every combination of <=2 (quick) / <=3 (thorough) deviations over 8 syntactic dimensions "
              "(attributes above/below, visibility, qualifiers, generics/where, parameter attributes/trailing comma, return type, 10 body "
-             "token soups); mod: every item word up to the bound over an 18-symbol item alphabet; impl: every item word over 6 symbols x "
-             "{static, ref}. Each state is expanded by the real macro; the recorded input token tree must be a prefix of the output (fn), "
+             "token soups); mod: every item word up to the bound over an 18-symbol item alphabet, modules with inner attributes, macro_rules-stamped "
+             "modules / impl blocks / fns (invisible groups); impl: every item word over 7 symbols x {static, ref} x attribute sets below entrait "
+             "(doc / automock / async_trait / mixed). Each state is expanded by the real macro; the recorded input token tree must be a prefix of the output (fn), "
              "of the module body followed only by the generated trait+impl and the re-export (mod), or equal to the inherent impl's body (impl).",
         note=NOTE, technique="bounded-exhaustive enumeration of programs; token-tree comparison of recorded macro input vs output (identity model)",
         ref="DESIGN.md §3 C02"),
     "C03": dict(
-        text="8 dependency forms (&impl, &D inline / where-bound, by-value generic / impl, concrete by reference and by value, no_deps) x every "
-             "extra-parameter word <= 1 (quick) / <= 2 (thorough) over {i64, &X elided, &'b X named, T: Bound inline, U where-bound, [u8; N] with const N, impl "
-             "Trait} x qualifiers {none, async, unsafe, extern \"C\", unsafe extern \"C\"} x 9 return kinds (unit, owned, borrowed from deps elided / named, "
-             "borrowed from an argument, generic T, Result, Option<&'a>, impl Trait) x options {none, mock_api, mockall, ?Send} x both features (~8.6k states "
+        text="9 dependency forms (&impl, unused `_: &impl`, &D inline / where-bound, by-value generic / impl, concrete by reference and by value, no_deps) x every "
+             "extra-parameter word <= 1 (quick) / <= 2 (thorough) over 20 symbols {i64, &X elided, &'b X named, T: Bound inline, U where-bound, [u8; N] with const N, impl "
+             "Trait, &dyn, fn pointer, impl Fn, Box<dyn>, slice, tuple, where-predicates naming 'static / for<> before a fn lifetime, outlives-related lifetimes, "
+             "destructuring / mut / wildcard patterns} x container {single fn, one of two fns of a module, next to a twin fn with the same generic parameter names} x qualifiers {none, async, unsafe, extern \"C\", unsafe extern \"C\", async unsafe} x 9 return kinds (unit, owned, borrowed from deps elided / named, "
+             "borrowed from an argument, generic T, Result, Option<&'a>, impl Trait) x options {none, mock_api, mockall, ?Send} x both features (~21.6k states "
              "in quick). Each state is compiled to a fixpoint (every rustc error attributed to its state, borrowck included) and run; for sync fns the function "
              "and the trait method must both coerce to the one most-general fn-pointer type written by the generator (higher-ranked lifetimes, unsafe / extern "
              "qualifiers), for async fns the Output is ascribed; scope witnesses check that a return borrowed from deps does not depend on the arguments and "
@@ -32,7 +34,7 @@ CHECKS = {
         ref="DESIGN.md §3 C03"),
     "C04": dict(
         text="All 8 subsets S of three bounds (two of them instantiations of one generic trait) x sync / async / async ?Send x 5 declaration forms (inline, where, impl A+B, split, duplicated) x receiver by ref/by value "
-             "x 6 mock settings (none, mockall, mockall=false, mock_api only, mock_api+unimock, unimock=false) x both crate features for single fns, and "
+             "x 8 mock settings (none, mockall, mockall=false, mock_api only, mock_api+unimock, unimock=false, unimock=false+mockall, mock_api+mockall=false) x both crate features for single fns, and "
              "all 64 pairs (S1,S2) x receiver combinations x mock settings for two-fn modules (three-fn modules in thorough). Per state 48 runtime "
              "availability probes `implements!(X: Tr)` / `implements!(Impl<X>: Tr)` over probe types implementing exactly each subset in three auto-trait "
              "flavours (everything / Sync-only / Send-only) must equal the model's iff; plus a negative compile probe for 'static per declaration form.",
@@ -40,17 +42,18 @@ CHECKS = {
         technique="exhaustive enumeration of bound-declaration programs on the real macro; runtime trait-availability truth table vs iff model",
         ref="DESIGN.md §3 C04"),
     "C05": dict(
-        text="6 concrete dependency type shapes (ident, path, generic instantiation, tuple, array, reference with explicit lifetime) x sync/async x "
-             "?Send with a genuinely non-Send body x owned/borrowed return x every argument word <= 2 (quick) / <= 3 (thorough) over {i64, &str}: the client "
+        text="6 concrete dependency type shapes (ident, path, generic instantiation, tuple, array, reference with explicit lifetime) plus a macro_rules-stamped "
+             "fn whose concrete type is a macro argument x sync/async x ?Send with a genuinely non-Send body x owned/borrowed return x every argument word <= 2 "
+             "(quick) / <= 3 (thorough) over {i64, &str, generic T}: the client "
              "calls the function directly, through the trait on C, through <Impl<C> as Tr> and through <Impl<App> as Tr> with a hand-written `impl Tr for App` "
              "(the README 'case 1' hop); each must produce exactly one event with the right C as dependency (address), arguments in order and the model's "
              "result; 9 runtime availability probes (C, Impl<C>, App, Impl<App>, Sync-only app, !Sync app, unrelated type, Impl<Impl<App>>) must match.",
         note=NOTE, technique="exhaustive enumeration of concrete-dependency programs on the real macro; executed trace + availability probes vs model",
         ref="DESIGN.md §3 C05"),
     "C06": dict(
-        text="Every method word of length <= 2 (quick) / <= 3 (thorough) over 16 method shapes (provided methods incl. `where Self: Sized` and pattern parameters, a macro_rules-stamped hygiene shape, 0-2 arguments incl. same-typed adjacent ones, &str, borrowed "
+        text="Every method word of length <= 2 (quick) / <= 3 (thorough) over 21 method shapes (provided methods incl. `where Self: Sized` and pattern parameters, macro_rules-stamped hygiene shapes incl. a macro-named method, unsafe / extern methods, 0-2 arguments incl. same-typed adjacent ones, &str, borrowed "
              "returns from arguments and from self, trait-generic and method-generic parameters, four async shapes) x selector {default, Self, ref, Borrow} x "
-             "{non-generic, generic, bound+default generic} trait x supertrait/where clause x {native async, async_trait} is compiled and run against a tracing provider: one event per call, on "
+             "{non-generic, generic, bound+default generic, const-before-type generic} trait x supertrait/where clause x {native async, async_trait} is compiled and run against a tracing provider: one event per call, on "
              "the provider reached through the selected route (address), arguments in order, result unchanged; and `Impl<X>: Trait` is probed at run time "
              "for a family of X (no provider, provider by Self / AsRef / Borrow, Sync-only and !Sync flavours) and must be true exactly for the selected route.",
         note=NOTE + " Traits that are not dyn-compatible are pruned for ref/Borrow; dyn delegation of a generic trait is exercised with `G: 'static`.",
@@ -69,18 +72,19 @@ CHECKS = {
         text="Every module item word up to the bound (full 31-symbol alphabet: every visibility and every const/async/unsafe/extern "
              "qualifier combination on visible and private fns, structs+impls, nested mods, extern blocks, macro_rules, body-less "
              "declarations, consts with blocks, uses, statics, traits; longer words over a 14-symbol core alphabet) x requested trait "
-             "visibility (none, pub, pub(crate), pub(in path)), plus macro_rules-stamped modules (block / expr / ty / vis / ident fragments), is expanded by the real macro; the method list of the generated trait must equal the model's filter "
+             "visibility (none, pub, pub(crate), pub(in path)), plus macro_rules-stamped modules (block / expr / ty / vis / ident / item fragments) and exporting invocations on the short words, is expanded by the real macro; the method list of the generated trait must equal the model's filter "
              "(visible fn with a body, source order) and, where the word can compile, a client in the parent scope and at crate level "
              "calls every expected method through the re-export.",
         note=NOTE, technique="bounded-exhaustive enumeration of module bodies; structural view of recorded expansion + executed client vs filter model",
         ref="DESIGN.md §3 C08"),
     "C09": dict(
         text="The default trait plus every combination of <= 2 (quick) / <= 3 (thorough) deviations over 13 dimensions (attributes above / below entrait, "
-             "visibility, unsafe, generics incl. lifetimes / defaults / const, supertraits, where clause, method attributes, default body, associated "
-             "types, async, a second method incl. generic and lifetime-carrying ones, 10 option sets incl. delegation targets with their own visibility) is "
+             "visibility, unsafe, generics incl. lifetimes / defaults / const, supertraits, where clause, method attributes, parameter attributes, default body, associated "
+             "types, async (native / async_trait), a second method incl. generic and lifetime-carrying ones, 10 option sets incl. delegation targets with their own visibility) is "
              "expanded, compiled and run. The emitted trait is diffed field by field (syn) against the trait the macro received - only the documented async "
              "rewrite and macro-owned attributes may differ - and a client that implements the trait relying on default bodies / associated types / "
-             "supertraits must compile and compute the values the trait as written gives.",
+             "supertraits must compile and compute the values the trait as written gives. The quick tier adds the three-way interactions method attribute x default body x {async, "
+             "every option set}.",
         note=NOTE + " One open known finding (associated types are dropped) is listed in known_findings.json.",
         technique="deviation-bounded exhaustive enumeration of trait definitions on the real macro; structural identity model + executed client",
         ref="DESIGN.md §3 C09"),
@@ -96,7 +100,7 @@ CHECKS = {
         text="(unimock feature on, --cfg test) Every argument word <= 2 (quick) / <= 3 (thorough) over {i64, &str, destructured tuple} x deps {&impl, &D, "
              "no_deps, concrete} x sync/async for single fns, modules of three same-signature fns declared in non-alphabetical order, entraited traits with "
              "three same-signature methods, macro_rules-stamped fns whose parameters differ only in hygiene, a `#[cfg]`-attributed module fn, and the same wiring spelled through "
-             "entrait_export / explicit export / export=false / mockall: the mock API must resolve under exactly the "
+             "entrait_export / explicit export / export=false / mockall, and on `unsafe fn` / `?Send` invocations: the mock API must resolve under exactly the "
              "mock_api name; a clause matching the position-coded arguments answers the call and a clause with permuted arguments does not; on "
              "Unimock::new_partial(()) the ORIGINAL function must run once with the Unimock instance as deps (address + type name), same arguments, same "
              "result as the Impl<T> path; concrete-deps fns and entraited traits must panic with 'cannot be unmocked'.",
@@ -105,7 +109,7 @@ CHECKS = {
         ref="DESIGN.md §3 C11"),
     "C12": dict(
         text="6 input modes (fn, mod, entraited trait, trait + static impl block, leaf trait by ref, trait + dyn impl block) x 5 return kinds (unit, owned, "
-             "borrowed from deps, borrowed from an argument with a named lifetime, generic) x {default, ?Send} x {native, async_trait} x {clean body, body "
+             "borrowed from deps, borrowed from an argument with a named lifetime, generic) x {default, ?Send} x {native, async_trait, async_trait named through a re-export} x {clean body, body "
              "holding an Rc across an await} x {all async, sync companion method} x {required, provided (default-bodied) async method}: every state is compiled; the Output type is ascribed (`output_is::<R,_>`), declared Send-ness is read as a "
              "runtime boolean in a generic context `fn p<D: Tr>(d: &D)`, the future is driven to completion and its value compared; non-Send bodies must "
              "compile under ?Send and be rejected ('cannot be sent between threads') by default; under async_trait the async fn must be kept and the "
@@ -114,7 +118,7 @@ CHECKS = {
         technique="exhaustive enumeration of async programs on the real macro; compile-time witnesses, runtime Send probe, negative compile probes, structural view",
         ref="DESIGN.md §3 C12"),
     "C13": dict(
-        text="Every (input mode, requested visibility, item visibility) program - fn: 5 requested x 3 fn visibilities; mod: 3 requested x module visibility "
+        text="Every (input mode, requested visibility, item visibility) program - fn: 10 requested (incl. pub(self), pub(in self), pub(in super), pub(in super::super), pub(in super::super::super), pub(in crate::path)) x 3 fn visibilities, and exporting variants; mod: 3 requested x module visibility "
              "x fn visibility, through the re-export and through the module; trait: 4 trait visibilities x static/ref delegation target x attribute-side "
              "visibility - x 5 probe scopes (defining scope, parent, grandparent, crate root, a second crate). One probe per unit: it must compile exactly "
              "where Rust's visibility lattice allows it and be rejected with a privacy error elsewhere; the visibility tokens of the emitted trait and "
@@ -123,7 +127,7 @@ CHECKS = {
         ref="DESIGN.md §3 C13"),
     "C14": dict(
         text="Bottom-level input mode {fn, mod, entraited trait, trait + static impl block} x sync/async x call-chain depth 1..3 (1..5 thorough) x arity "
-             "0..2 x {elided, named lifetime, two lifetimes with an outlives bound, generic async method, provided method mentioning its own name}: level i of the chain allocates exactly i boxes, the client counts heap allocations "
+             "0..2 x {elided, named lifetime, two lifetimes with an outlives bound, generic async method, provided method mentioning its own name, method taking `self` by value, mockall + return-position `impl Trait`}: level i of the chain allocates exactly i boxes, the client counts heap allocations "
              "(counting global allocator, allocation-free executor) around the direct call and around the call through the generated trait; both must "
              "equal d(d+1)/2 and give the same result; the generated part of every recorded expansion must not mention dyn / Box / Pin / async_trait.",
         note=NOTE + " Debug build: Box::new allocates exactly once.",
@@ -131,10 +135,10 @@ CHECKS = {
         ref="DESIGN.md §3 C14"),
     "C15": dict(
         text="(i) every attribute-argument token word up to length 3 (quick) / 4 (thorough) over a 23-token alphabet (option names, values, "
-             "punctuation, keywords, literals, a parenthesised group) on fn, mod, trait and impl items (~50k invocations in quick); (ii) 39 documented-misuse "
+             "punctuation, keywords, literals, a parenthesised group) on fn, mod, trait and impl items (~50k invocations in quick); (ii) 59 documented-misuse "
              "and unsupported-item cases x both macro names, each in its own compiler process; (iii) every trait-method parameter-pattern word "
-             "<= 2 over 10 patterns x {declaration, default body} x 6 delegation kinds; (iv) fn-signature pattern words x 4 contexts x {f, r#type}; (v) every sequence <= 2 (3) of 7 signature shapes (where "
-             "clauses with / without trailing comma, lifetime-only dependency bounds, HRTB predicates, async) inside one module / impl block. For every invocation: no panic record and no `custom attribute "
+             "<= 2 over 10 patterns x {declaration, default body} x 6 delegation kinds; (iv) fn-signature pattern words x 4 contexts x {f, r#type}; (v) every sequence <= 2 (3) of 10 item shapes (where "
+             "clauses with / without trailing comma, lifetime-only dependency bounds, HRTB predicates, async, body-less declarations with and without visibility) inside one module / impl block. For every invocation: no panic record and no `custom attribute "
              "panicked`, the recorded output parses as Rust items, a rejection is reported by rustc inside the invocation's own lines; documented misuses "
              "give their specific message on the line of the offending tokens.",
         note=NOTE, technique="bounded-exhaustive enumeration of attribute token words / item kinds / pattern words through the real macro; diagnostic-channel oracle",
@@ -143,7 +147,7 @@ CHECKS = {
         text="Every pattern word up to length 3 (quick) / 4 (thorough) over a 15-symbol pattern alphabet (plain, mut, ref, raw identifier, wildcard, "
              "tuple, tuple-struct with 1 binding, with binding+wildcard, struct pattern, reference pattern, binding named like the function, bindings "
              "named like would-be generated names argN/_argN/f_, destructuring whose binding is the function name) x {generic deps, no_deps, module fn, "
-             "impl-block fn, provided method of an entraited trait} x fn name {f, r#type} is compiled and run; the generated method's parameter list must satisfy the naming specification and "
+             "impl-block fn, provided method of an entraited trait, required method of an entraited trait (identifiers and `_` only)} x fn name {f, r#type} is compiled and run; the generated method's parameter list must satisfy the naming specification and "
              "the trait call must forward position-coded arguments positionally.",
         note=NOTE, technique="bounded-exhaustive enumeration of pattern lists on the real macro; specification model + executed trace",
         ref="DESIGN.md §3 C16"),
@@ -151,13 +155,14 @@ CHECKS = {
         text="State graph whose nodes are option sets and whose edges append one option: every ordered selection of the six fn/mod options "
              "and the five trait options (every path into every node), plus all 4^4 value-form combinations {absent,bare,=true,=false} of the "
              "boolean options x mock_api x ?Send, under both macro names and both crate features, on fn / concrete-deps fn / parameterless fn / mod / trait / impl items (~11.6k invocations). "
-             "Invocations with the same semantic key (derived from the statement only) must expand to identical token trees; options outside "
+             "Invocations with the same semantic key (derived from the statement and the option table's defaults only) must expand to identical token trees - for concrete-deps fns whose "
+             "arguments set `unimock` explicitly the nested expansion on the generated trait is compared as well; options outside "
              "their documented target must be rejected, documented ones accepted.",
         note=NOTE, technique="exhaustive path enumeration of the option state graph, metamorphic token-equality oracle on the real macro",
         ref="DESIGN.md §3 C17"),
     "C18": dict(
         text="Every placement word of <= 2 (quick) / <= 3 (thorough) (site, attribute) pairs per input mode - sites: above / below entrait, on a plain / "
-             "destructured / wildcard parameter, on concrete-deps fns, on the module, on a module fn, on the trait, on a trait method, on the impl block, on an impl-block fn; "
+             "destructured / wildcard parameter, on concrete-deps fns, on the module, on a module fn, on the trait, on a trait method (required, async provided, provided with a delegation-target trait), on the impl block, on an impl-block fn; "
              "attributes: doc, allow, inline, must_use, cfg(all()), cfg(any()) (with a body and return type that cannot compile), an identity proc-macro, "
              "a counting proc-macro and the counting macro wrapped in cfg_attr - is compiled and run. Generated traits/impls/methods may carry nothing from the user except mirrored cfg "
              "(mod / impl-block fns) or all method attributes (entraited traits); generated signatures carry no parameter attributes; programs with "
@@ -165,17 +170,18 @@ CHECKS = {
         note=NOTE, technique="bounded-exhaustive enumeration of attribute placements on the real macro; structural view + executed client + helper-macro invocation log",
         ref="DESIGN.md §3 C18"),
     "C19": dict(
-        text="18 programs (every input mode x delegation kind, sync and async, ?Send, by-value, concrete, no_deps, static/dyn targets, async_trait), all invoked by "
+        text="19 programs (every input mode x delegation kind, sync and async, ?Send, by-value, concrete, no_deps, static/dyn/Borrow targets, async_trait), all invoked by "
              "absolute path with no imports, x {empty scope, each of 20 local decoy items alone (traits Send/Sync/Sized/Future/AsRef/Borrow/Unpin, structs "
              "Impl/Box/Pin, modules core/entrait/std/alloc/future/marker/convert/borrow, value-namespace unit structs and consts), all decoys together, the "
-             "trait itself named Send/Sync/Sized/Future/AsRef/Impl/Box/Unpin}: each state is compiled and run and must give the model's values and the same "
+             "trait itself named Send/Sync/Sized/Future/AsRef/Impl/Box/Unpin, six macro_rules hygiene splits (whole program in a macro body; trait names / every fn, parameter and module "
+             "name as macro arguments; both; attribute in the body and item passed in; the reverse)}: each state is compiled and run and must give the model's values and the same "
              "observations as in the empty scope; one #![no_std] lib crate holds every mode; every path of the generated part of every recorded expansion "
              "must be rooted at ::entrait/::core, a macro-introduced generic/receiver, or be copied from the input.",
         note=NOTE + " Decoys named Box/Pin are not applied to programs that go through the third-party async_trait macro (its own expansion is not hygienic).",
         technique="exhaustive enumeration of (program x hostile scope) on the real macro; differential + model oracle, structural path-root scan",
         ref="DESIGN.md §3 C19"),
     "C20": dict(
-        text="Every sequence with repetition over 12 representative invocations up to length 3 (quick) / 4 + all 720 permutations of six (thorough) "
+        text="Every sequence with repetition over 13 representative invocations up to length 3 (quick) / 4 + all 720 permutations of six (thorough) "
              "is expanded inside one compiler process per history; each invocation's recorded (attr, input, output) at every position must equal "
              "the record of the same invocation expanded alone. The corpus is also expanded under 7 environments (incl. the variables build tools / CI / docs.rs set) x {alone, 16 concurrent processes}. "
              "Hash-seed independence is only sampled (R fresh processes) and reported as such.",
